@@ -48,7 +48,7 @@ def regInit (sender hub : Addr) (vals : List Addr) : RegSt :=
 def chain0 : Chain :=
   { time := 1000000, height := 1, bank := fun a _ => if a = swapA then 10000000000000000000000000000000000000 else 0,
     deleg := fun _ => 0, delegSet := fun _ => false, unbondingQ := [], pending := fun _ _ => 0, withdrawAddr := hubA,
-    noRedelegate := fun _ => false, noUndelegate := fun _ => false, unbondingTime := 0, oracleOk := true, oraclePrice := D,
+    noRedelegate := fun _ => false, noUndelegate := fun _ => false, inactive := fun _ => false, unbondingTime := 0, oracleOk := true, oraclePrice := D,
     swapOk := true, swapP2 := D }
 
 /-- state before the genesis `inst` lines (never observed) -/
